@@ -9,5 +9,20 @@ body = "\n\n".join(p.read_text().strip() for p in sorted((V / "design.d").glob("
 extra = V / "design.d" / "seeded.md"
 if extra.exists():
     body += "\n\n" + extra.read_text().strip()
+import json
+rf = V / "seeded" / "RESULTS.json"
+if rf.exists():
+    res = json.loads(rf.read_text())
+    rows = []
+    for k in sorted(res):
+        m = json.loads((V / "seeded" / k / "meta.json").read_text())
+        rows.append(f"| {k} | {m['property']} | {m.get('breaks','')[:160].replace('|','/')} | {res[k]['outcome']} |")
+    n = len(res); c = sum(1 for v in res.values() if v["outcome"] == "caught"); o = sum(1 for v in res.values() if v["outcome"] == "caught-obligation-only")
+    body += ("\n\n### Seeded changes (held-out, written by fresh sub-agents from the property text only) vs. the checks\n\n"
+             f"{n} changes; {c} caught with a concrete failing input, {o} caught at obligation/correspondence level only "
+             f"(`no-failing-input-found`), {n-c-o} missed or not applicable. Each row: `tools/seeded.py run seeded/<id>` "
+             "(apply to /repo, run the property's quick check, undo). Where a change was missed the responsible generator/oracle was "
+             "extended afterwards (families described in design.d/Cxx.md); the table shows the state of the committed checks.\n\n"
+             "| id | property | what it breaks | quick check |\n|---|---|---|---|\n" + "\n".join(rows) + "\n")
 (V / "DESIGN.md").write_text(d[:a] + "<!-- STATUS-BEGIN -->\n" + body + "\n" + d[b:])
 print("DESIGN.md updated")
